@@ -29,6 +29,8 @@ func main() {
 		cmdSchema(os.Args[2:])
 	case "dl":
 		cmdDL(os.Args[2:])
+	case "expiry":
+		cmdExpiry(os.Args[2:])
 	case "sshsrv":
 		cmdSSHSrv(os.Args[2:])
 	case "agent":
